@@ -141,3 +141,26 @@ Lemma untrimmed_request_lemma : forall o pr,
 Proof.
   intros o pr H1 H2. unfold new_trimmed_text, trim_pass1. rewrite H1, H2. reflexivity.
 Qed.
+
+(* ---------------- label pseudo frames (formatLabelValues) ---------------- *)
+(* the values of a key are ALL its string values followed by ALL its numeric values (formatted),
+   whenever the units are absent or there is one per value: nothing is dropped because the key
+   also carries values of the other kind *)
+Lemma label_values_complete_lemma : forall (f : Z -> string -> string) s k,
+  let vals := or_nil (assoc_s k (s_label s)) in
+  let nums := or_nil (assoc_s k (s_numlabel s)) in
+  let units := or_nil (assoc_s k (s_numunit s)) in
+  (units = [] \/ List.length units = List.length nums) ->
+  List.length (format_label_values f s k) = (List.length vals + List.length nums)%nat /\
+  firstn (List.length vals) (format_label_values f s k) = vals.
+Proof.
+  intros f s k vals nums units H. unfold format_label_values. fold vals nums units.
+  assert (E : (negb (Nat.eqb (List.length nums) (List.length units)) && negb (Nat.eqb (List.length units) 0))%bool = false).
+  { destruct H as [H|H].
+    - rewrite H. simpl. apply andb_false_r.
+    - rewrite H, Nat.eqb_refl. reflexivity. }
+  rewrite E. split.
+  - rewrite app_length. f_equal. destruct units as [|u us]; [apply map_length|].
+    rewrite map_length, combine_length. destruct H as [H|H]; [discriminate|]. rewrite H. apply Nat.min_id.
+  - rewrite firstn_app, Nat.sub_diag, firstn_all. simpl. apply app_nil_r.
+Qed.
